@@ -79,6 +79,10 @@ class stabilizerEngine(quantumEngine):
         except Exception:
             raise ValueError("'newQubits' was not in the correct form to be given as an argument to StabilizerState")
 
+        # Check if we are still allowed to add qubits
+        if self.activeQubits + qubit.num_qubits > self.maxQubits:
+            raise noQubitError("No more qubits available in register.")
+
         num = self.activeQubits
 
         self.qubitReg = self.qubitReg.tensor_product(qubit)
